@@ -2,9 +2,9 @@ package main
 
 import (
 	"fmt"
-	"math/big"
 	"go/token"
 	"go/types"
+	"math/big"
 	"sort"
 	"strings"
 
@@ -168,10 +168,10 @@ func (x *Exec) gsCandidateKeys() []string {
 }
 
 type gsState struct {
-	hk, ck, tk       string
-	hci, cci, tci    compInfo
-	has, card, etag  string
-	decl             bool // all three components are declared constants (usable in patterns)
+	hk, ck, tk      string
+	hci, cci, tci   compInfo
+	has, card, etag string
+	decl            bool // all three components are declared constants (usable in patterns)
 }
 
 func (x *Exec) gsGet(st *State, fam string) *gsState {
